@@ -100,7 +100,7 @@ def ruleConnsContain (ports : List NPPort) (pr : Option Proto) (port : Int) (dst
       | [] => .ok false
       | p :: rest =>
         match p.kind with
-        | .all => .ok true   -- as coded: a rule port without `port` matches whatever the protocol
+        | .all => if some (p.proto.getD .TCP) == pr then .ok true else go rest
         | _ => do
           let (s, e, _) ← portsRange p (some dst)
           if rulePortContains (p.proto.getD .TCP) pr s e port then pure true else go rest
